@@ -131,6 +131,14 @@ func (x *ctx) ops(a, b Elem, d dom, rng *rand.Rand) {
 			x.expect(fmt.Sprintf("Pow2k(%d)", k), out.Pow2k(&a.fe, k), new(big.Int).Exp(mod(a.val), e, P), det)
 		}
 		x.expect("Mul121666", out.Mul121666(&a.fe), new(big.Int).Mul(a.val, big.NewInt(121666)), det)
+		t = a.fe
+		x.expect("Mul121666-aliased", t.Mul121666(&t), new(big.Int).Mul(a.val, big.NewInt(121666)), det)
+		t = a.fe
+		x.expect("Square2-aliased", t.Square2(&t), new(big.Int).Lsh(sq, 1), det)
+		t = a.fe
+		x.expect("Pow2k(5)-aliased", t.Pow2k(&t, 5), new(big.Int).Exp(mod(a.val), big.NewInt(32), P), det)
+		t = a.fe
+		x.expect("Mul-aliased-all", t.Mul(&t, &t), sq, det)
 		graftMulVariants(x, &a, &b, det)
 	}
 	if d.mul && rng.IntN(4) == 0 {
@@ -145,6 +153,20 @@ func (x *ctx) ops(a, b Elem, d dom, rng *rand.Rand) {
 		_, flag := out.SqrtRatioI(&a.fe, &b.fe)
 		x.expect("SqrtRatioI/root", &out, root, det)
 		x.expectBool("SqrtRatioI/flag", flag == 1, was, det)
+		// receiver is the numerator, the denominator, both
+		t = a.fe
+		_, flag = t.SqrtRatioI(&t, &b.fe)
+		x.expect("SqrtRatioI/root(receiver=u)", &t, root, det)
+		x.expectBool("SqrtRatioI/flag(receiver=u)", flag == 1, was, det)
+		t = b.fe
+		_, flag = t.SqrtRatioI(&a.fe, &t)
+		x.expect("SqrtRatioI/root(receiver=v)", &t, root, det)
+		x.expectBool("SqrtRatioI/flag(receiver=v)", flag == 1, was, det)
+		wasAA, rootAA := sqrtRatioRef(a.val, a.val)
+		t = a.fe
+		_, flag = t.SqrtRatioI(&t, &t)
+		x.expect("SqrtRatioI/root(receiver=u=v)", &t, rootAA, det)
+		x.expectBool("SqrtRatioI/flag(receiver=u=v)", flag == 1, wasAA, det)
 		was2, root2 := sqrtRatioRef(big.NewInt(1), a.val)
 		t = a.fe
 		_, flag2 := t.InvSqrt()
@@ -326,15 +348,30 @@ func (x *ctx) api(rng *rand.Rand) {
 		}
 	}
 	// BatchInvert with zeros inside
-	for _, n := range []int{0, 1, 2, 5, 17} {
+	// (lengths on both sides of every power of two up to 256; zeros - as all-zero limbs and as the representation p -
+	// at the first, the last and at word-boundary indices)
+	zeroReps := []Elem{fromBytes(make([]byte, 32))}
+	for _, e := range sp {
+		if mod(e.val).Sign() == 0 {
+			zeroReps = append(zeroReps, e)
+		}
+	}
+	for _, n := range []int{0, 1, 2, 5, 17, 31, 32, 33, 63, 64, 65, 66, 127, 128, 129, 200, 255, 256, 257} {
 		var es []Elem
 		var ptrs []*field.Element
 		for i := 0; i < n; i++ {
 			e := sp[rng.IntN(len(sp))]
-			if rng.IntN(2) == 0 {
+			if n > 17 || rng.IntN(2) == 0 {
 				e = fromBytes(mon.Bytes(rng, 32))
 			}
 			es = append(es, e)
+		}
+		if n > 17 {
+			for _, zi := range []int{0, n - 1, 31, 32, 63, 64, 65, 127, 128, rng.IntN(n)} {
+				if zi < n && rng.IntN(3) != 0 {
+					es[zi] = zeroReps[rng.IntN(len(zeroReps))]
+				}
+			}
 		}
 		for i := range es {
 			ptrs = append(ptrs, &es[i].fe)
